@@ -261,14 +261,14 @@ func (d *Decoder) unmarshal(val reflect.Value, tagType byte) error {
 		if aryLen < 0 {
 			return errors.New("int array len less than 0")
 		}
-		vt := val.Type() // receiver must be []int or []int32
+		vt := val.Type() // receiver must be []int, []int32 or []uint32
 		if vt.Kind() == reflect.Interface {
 			vt = reflect.TypeOf([]int32{}) // pass
 		} else if vt.Kind() == reflect.Array && vt.Len() != int(aryLen) {
 			return errors.New("cannot parse TagIntArray to " + vt.String() + ", length not match")
 		} else if k := vt.Kind(); k != reflect.Slice && k != reflect.Array {
 			return errors.New("cannot parse TagIntArray to " + vt.String() + ", it must be a slice")
-		} else if tk := val.Type().Elem().Kind(); tk != reflect.Int && tk != reflect.Int32 {
+		} else if tk := val.Type().Elem().Kind(); tk != reflect.Int && tk != reflect.Int32 && tk != reflect.Uint32 {
 			return errors.New("cannot parse TagIntArray to " + vt.String())
 		}
 
@@ -281,7 +281,11 @@ func (d *Decoder) unmarshal(val reflect.Value, tagType byte) error {
 			if err != nil {
 				return err
 			}
-			buf.Index(i).SetInt(int64(value))
+			if elem := buf.Index(i); elem.Kind() == reflect.Uint32 {
+				elem.SetUint(uint64(uint32(value)))
+			} else {
+				elem.SetInt(int64(value))
+			}
 		}
 		if vt.Kind() == reflect.Slice {
 			val.Set(buf)
